@@ -368,3 +368,24 @@ def _wide(n):
 
 
 REGRESSIONS += [_wide(300), _wide(700)]
+
+
+def _filled(n, m, k=2):
+    """Well-filled operands that overlap in most cells (results of about a
+    thousand cells and more; every shared cell is a sum of k values)."""
+    ops_ = []
+    for q in range(k):
+        ops_.append({
+            "obs": ["O%d" % (i + q) for i in range(n)],
+            "samp": ["S%d" % (j + q) for j in range(m)],
+            "rows": [[float((i * 5 + j * 3 + q) % 7 + 1) if (i + j + q) % 11
+                      else 0.0 for j in range(m)] for i in range(n)],
+            "type": None, "form": ["dense", "csr", "csc"][q % 3],
+            "history": [], "obs_md": None, "samp_md": None})
+    return {"operands": ops_, "form": "pair" if k == 2 else "list",
+            "sample": "union", "observation": "union", "mdf": "default",
+            "values": "int", "self_merge": False}
+
+
+REGRESSIONS += [_filled(32, 32), _filled(31, 33), _filled(70, 40),
+                _filled(33, 33, 3)]
